@@ -224,7 +224,7 @@ pub fn check(c: &Case, stats: &mut Stats) -> CheckResult {
 }
 
 fn strategy(tier: Tier) -> BoxedStrategy<Case> {
-    let max = if tier == Tier::Quick { 12usize } else { 40 };
+    let max = if tier == Tier::Quick { 24usize } else { 40 };
     (2..=max, 0u8..4, vec(any::<u16>(), NT as usize), vec(0u8..8, 40), vec(any::<u32>(), 40 * 40), any::<u64>(), proptest::bool::weighted(0.15))
         .prop_map(|(n, method, keys, extra, raw, seed, coarse)| {
             // a random partition of a prefix of the 96 terms into n non-empty sets
@@ -263,7 +263,7 @@ impl Property for C17 {
         "C17"
     }
     fn rule(&self) -> String {
-        "Generated: n in 2..=12 (thorough 40) pairwise disjoint input sets (mostly singletons, some with 2-3 terms) over a flat 96-term ontology; for single/complete/average a generated symmetric table of initial distances (distinct values, or few values so that ties are frequent); for union a symmetric pseudo-random distance that is a function of the two sets' contents, so merged sets get fresh values. Oracle = validity predicate simulated along the library's own merge choices (ties admit several dendrograms): exactly n-1 merges; each merge joins two live, different clusters (inputs or earlier merges n+k), so every input and intermediate cluster is merged exactly once and one cluster remains; the reported distance equals the pair's current distance bit for bit and no live pair is strictly closer; distances to the new cluster follow the method (min / max / mean of the two parts in f32 / content function of the union); len adds up and is n at the last merge; indicies() is a permutation of 0..n; cluster(), iter(), &linkage and into_cluster() agree; the first callback invocation asks every unordered pair of inputs exactly once (later invocations, which also pair the new set with itself, are not constrained). evaluations = clusterings. Non-trivial = n >= 4 and some merge joins two earlier clusters; distinct by hash of the case.".into()
+        "Generated: n in 2..=24 (thorough 40) pairwise disjoint input sets (mostly singletons, some with 2-3 terms) over a flat 96-term ontology; for single/complete/average a generated symmetric table of initial distances (distinct values, or few values so that ties are frequent); for union a symmetric pseudo-random distance that is a function of the two sets' contents, so merged sets get fresh values. Oracle = validity predicate simulated along the library's own merge choices (ties admit several dendrograms): exactly n-1 merges; each merge joins two live, different clusters (inputs or earlier merges n+k), so every input and intermediate cluster is merged exactly once and one cluster remains; the reported distance equals the pair's current distance bit for bit and no live pair is strictly closer; distances to the new cluster follow the method (min / max / mean of the two parts in f32 / content function of the union); len adds up and is n at the last merge; indicies() is a permutation of 0..n; cluster(), iter(), &linkage and into_cluster() agree; the first callback invocation asks every unordered pair of inputs exactly once (later invocations, which also pair the new set with itself, are not constrained). evaluations = clusterings. Non-trivial = n >= 4 and some merge joins two earlier clusters; distinct by hash of the case.".into()
     }
     fn assumptions(&self) -> Vec<String> {
         vec![
